@@ -145,6 +145,10 @@ func (f *Frame) enterBlock(b *ssa.BasicBlock) *cursor {
 		phis = append(phis, phi)
 		entryEnv[phi] = phiVal(phi, preds, conds)
 	}
+	if f.entryVals == nil {
+		f.entryVals = map[*ssa.BasicBlock]map[*ssa.Phi]Term{}
+	}
+	f.entryVals[b] = entryEnv
 	invs := f.loopInvariants(li)
 	for _, inv := range invs {
 		t := f.evalInvariant(inv, li, entryEnv, st, nil)
@@ -1063,6 +1067,9 @@ func (f *Frame) execNext(c *cursor, x *ssa.Next) {
 		pos := e.define(f.name(x)+".pos", sel(arr, it, SInt))
 		// built-in iterator invariant (holds for every range loop by construction)
 		e.assume(and(le(intLit(0), pos), le(pos, sLen(s))), pos.S)
+		if _, used := e.U.funs["boundary"]; used {
+			e.assume(app(SBool, "boundary", s, pos), pos.S) // the iterator stands at the start of a character
+		}
 		ok := e.define(f.name(x)+".ok", lt(pos, sLen(s)))
 		r := e.define(f.name(x)+".r", runeAt(s, pos))
 		w := e.define(f.name(x)+".w", widthAt(s, pos))
